@@ -583,9 +583,7 @@ func registerRecover() {
 			} else if rs.handler && len(want.log) > 0 && want.log[len(want.log)-1].ID == idIsDef {
 				t.skipped = 1 // isDefinedAt said no: the then-branch is correctly not invoked
 			}
-			if !t.compareLog(want.log) {
-				return
-			}
+			t.compareLog(want.log)
 			switch want.kind {
 			case recUntouched:
 				if !t.out.ok || !reflect.DeepEqual(t.out.val, t.vals[0]) {
@@ -795,9 +793,7 @@ func regPanicSite(key, family string, n int, flags int, exec func(t *T)) {
 		for j := 0; j < n; j++ {
 			args = append(args, t.vals[16+j])
 		}
-		if !t.compareLog([]ev{{ID: idF, Args: args}}) {
-			return
-		}
+		t.compareLog([]ev{{ID: idF, Args: args}})
 		o := t.out
 		switch t.beh {
 		case behValue:
